@@ -1191,4 +1191,90 @@ end
 
 end More
 
+/-! ## decoded values lie in the class `strictOk` -/
+section Decoded
+open Impl Spec
+
+theorem entryKey_newString (k : Key) : entryKey (R.newString k) = some k := by
+  cases k <;> simp [R.newString, entryKey]
+
+theorem entryKeys_entries (l : List (Key × R)) : entryKeys (entries l) = some (keys l) := by
+  induction l with
+  | nil => rfl
+  | cons p r ih =>
+    obtain ⟨k, v⟩ := p
+    have e : entries ((k, v) :: r) = (R.newString k, v) :: entries r := rfl
+    simp [e, entryKeys, entryKey_newString, ih]
+
+theorem strictOkEntries_entries (l : List (Key × R)) (h : ∀ p ∈ l, strictOk p.2 = true) :
+    strictOkEntries (entries l) = true := by
+  induction l with
+  | nil => rfl
+  | cons p r ih =>
+    obtain ⟨k, v⟩ := p
+    have e : entries ((k, v) :: r) = (R.newString k, v) :: entries r := rfl
+    simp [e, strictOkEntries, h (k, v) List.mem_cons_self, ih (fun q hq => h q (List.mem_cons_of_mem _ hq))]
+
+theorem strictOkList_map (xs : List J) (h : ∀ x ∈ xs, strictOk (toArrai true x) = true) :
+    strictOkList (xs.map (toArrai true)) = true := by
+  induction xs with
+  | nil => rfl
+  | cons x r ih =>
+    simp [strictOkList, h x List.mem_cons_self, ih (fun y hy => h y (List.mem_cons_of_mem _ hy))]
+
+mutual
+/-- every strictly decoded value lies in the class on which strict encoding is faithful -/
+theorem strictOk_toArrai (j : J) : strictOk (toArrai true j) = true := by
+  cases j with
+  | null => rfl
+  | bool b => cases b <;> rfl
+  | num n => rfl
+  | str cs => cases cs <;> rfl
+  | arr xs =>
+    have h := strictOk_toArrai_list xs
+    simp only [toArrai, if_true, toArraiList_eq]
+    cases xs with
+    | nil => rfl
+    | cons x r =>
+      have := strictOkList_map (x :: r) h
+      simp only [List.map_cons] at this
+      simp [R.newArray, strictOk, strictOkTagged, kA, this]
+  | obj kvs =>
+    have h := strictOk_toArrai_kvs kvs
+    simp only [toArrai, toArraiKvs_eq, lastWins_mapVal]
+    by_cases hn : lastWins kvs = []
+    · simp [hn, entries, R.newDict, strictOk]
+    · rw [newDict_entries_ne (by simpa [mapVal_eq_nil] using hn)]
+      have h1 : strictOkEntries (entries (mapVal (toArrai true) (lastWins kvs))) = true := by
+        apply strictOkEntries_entries
+        intro p hp
+        simp only [mapVal, List.mem_map] at hp
+        obtain ⟨q, hq, rfl⟩ := hp
+        exact h q (mem_lastWins hq)
+      have h2 : (entries (mapVal (toArrai true) (lastWins kvs))).isEmpty = false := by
+        have : entries (mapVal (toArrai true) (lastWins kvs)) ≠ [] := by
+          simpa [entries_eq_nil, mapVal_eq_nil] using hn
+        cases hh : entries (mapVal (toArrai true) (lastWins kvs)) <;> simp_all
+      have h3 : nodupKeys (keys (lastWins kvs)) = true := (nodupKeys_iff _).2 (nodup_keys_lastWins kvs)
+      simp [strictOk, h1, h2, entryKeys_entries, h3]
+theorem strictOk_toArrai_list (xs : List J) : ∀ x ∈ xs, strictOk (toArrai true x) = true := by
+  cases xs with
+  | nil => simp
+  | cons x r =>
+    intro y hy
+    rcases List.mem_cons.1 hy with e | hy
+    · rw [e]; exact strictOk_toArrai x
+    · exact strictOk_toArrai_list r y hy
+theorem strictOk_toArrai_kvs (kvs : List (Key × J)) : ∀ p ∈ kvs, strictOk (toArrai true p.2) = true := by
+  cases kvs with
+  | nil => simp
+  | cons q r =>
+    obtain ⟨k, v⟩ := q
+    intro y hy
+    rcases List.mem_cons.1 hy with e | hy
+    · rw [e]; exact strictOk_toArrai v
+    · exact strictOk_toArrai_kvs r y hy
+end
+end Decoded
+
 end Arrai.C13
